@@ -374,6 +374,42 @@ func c11RulesLoaded(c *Ctx, r *R) {
 	}
 	r.Check(own, "own-rules", fn.Pos(), `globalRules[""] = rootMetadata.GetGlobalRules()`, "the repository's own global rules are not loaded into State.globalRules[\"\"]")
 	r.Check(ctrl, "controller-rules", fn.Pos(), "globalRules[controller] = controller root GetGlobalRules() for every controller", "controller global rules are not loaded under the controller's own name")
+	// the table is only ever extended: the field State.globalRules is (re)assigned either before any
+	// loop (the repository's own rules) or, inside the controller loop, under `s.globalRules == nil`
+	// (first controller with rules when the repository has none); an unconditional assignment in the
+	// loop would throw away the repository's own rules and every earlier controller's
+	isNil := eng.RelEdges(fn, token.EQL, eng.PField("globalRules", nil), eng.PNil())
+	okExt, nSt := true, 0
+	for _, b := range fn.Blocks {
+		for _, in := range b.Instrs {
+			st, ok := in.(*ssa.Store)
+			if !ok {
+				continue
+			}
+			fa, ok := st.Addr.(*ssa.FieldAddr)
+			if !ok || fieldNameOf(fa) != "globalRules" {
+				continue
+			}
+			nSt++
+			inLoop := false
+			for h := range loopHeads(fn) {
+				if lp := eng.NaturalLoop(h.Block()); lp[b] {
+					inLoop = true
+				}
+			}
+			if !inLoop {
+				continue
+			}
+			guarded := false
+			for _, e := range isNil {
+				if eng.EdgeDominates(e, b) {
+					guarded = true
+				}
+			}
+			okExt = okExt && guarded
+		}
+	}
+	r.Check(okExt && nSt >= 1, "table-only-extended", fn.Pos(), "State.globalRules is replaced only when it is still nil", "State.globalRules is re-assigned inside the controller loop without an `== nil` guard: the repository's own global rules and those of earlier controllers are discarded")
 	// the controller loop ranges over ControllerMetadata
 	done := rangeDoneEdges(fn, eng.PField("ControllerMetadata", nil))
 	r.Check(len(done) > 0, "all-controllers", fn.Pos(), "preprocess ranges over every member of ControllerMetadata", "no range over ControllerMetadata in preprocess")
